@@ -187,6 +187,7 @@ def do_persist(w, op, index):
     if a != b:
         w.violate("copy_equal", f"{how} copy differs: " + "; ".join(snap.diff(a, b)[:4]), index)
     w.m = m2  # the session continues on the copy; the original is dropped (restart with only durable state)
+    w.epoch = getattr(w, "epoch", 0) + 1  # view handles of the dropped module are gone
     w.bump("fault_persist_" + how)
     w.chain.add("persist", {"how": how, "tables": snap.digest(b)})
     return {"outcome": "accepted"}
